@@ -7,7 +7,8 @@
 (*   Response(k, v, st, hh, hdr, sz)  a provider response with the unique value *)
 (*        tag v and status st is seen for key k at instant `now`               *)
 (*        (k = <<method, URL, values of the selected path parameters>>);       *)
-(*        hh = 1 iff it carries the retry-after header, hdr = its value in     *)
+(*        hh >= 1 iff it carries the retry-after header (1: spelled as in the   *)
+(*        policy, 2: in another letter case), hdr = its value in               *)
 (*        ticks, sz = its size in size units                                   *)
 (*   Request(k, out)   a request for key k is answered  noop  (goes to the     *)
 (*        provider) or  replay  of value out.v with status out.st and          *)
@@ -41,7 +42,8 @@ pvars == <<now, cands, held, last>>
 NoOut == [kind |-> "noop", v |-> "", st |-> 0, hdr |-> -1]
 
 \* a response the remedy is meant to remember at all
-Storable(st, hh) == Typ \in {"cache", "mem"} \/ (st \in Relevant /\ hh = 1)
+\* (header names are not case sensitive: whether a remedy recognises another spelling is its choice)
+Storable(st, hh) == Typ \in {"cache", "mem"} \/ (st \in Relevant /\ hh >= 1)
 
 \* the instant after which a response seen now must no longer be replayed
 ExpOf(hdr) == CASE Typ = "cache" -> now + Ttl
